@@ -1,6 +1,7 @@
 //! vh_fee — fees: FeeReserve (C06: unit level + ledger fee outcomes), TxFailure (C02: fault sweep).
 #![allow(clippy::all)]
 mod faults;
+mod forcewrite;
 mod ledger;
 mod reserve;
 
@@ -10,6 +11,7 @@ fn main() {
         "reserve" => reserve::run(&mode, &args),
         "ledger" => ledger::run(&mode, &args),
         "faults" => faults::run(&mode, &args),
+        "forcewrite" => forcewrite::run(&mode, &args),
         m => vh::unknown(m),
     }
 }
